@@ -274,25 +274,15 @@ Proof. intros H. apply budget_code_model. apply rt_ok_holds. exact H. Qed.
 
 (* ---------------------------------------------------------------- witnesses *)
 
-(* The pod order decides whether a cpu of an LSE pod is protected: LSE pod {2,3} followed by an
-   LSR pod {2,3}, budget 3 cpus, current BE cpuset {0,1}: cpu 2 is handed to BE. *)
+(* Regression for the repaired finding (fix 62333f7): with the OLD last-writer-wins map an LSE pod
+   {2,3} followed by an LSR pod {2,3} left cpu 2 classified LSR (and so eligible for BE), and the
+   answer depended on the pod order; the repaired map says LSE for both orders. *)
 Definition w_procs : list proc :=
   [mkProc 0 0 0 0; mkProc 1 0 0 0; mkProc 2 1 0 0; mkProc 3 1 0 0].
-Definition w_overwritten : ainput :=
-  mkA 3000 false [0; 1] w_procs [mkCpod Q_LSE [2; 3]; mkCpod Q_LSR [2; 3]] [] [].
-Definition w_ordered : ainput :=
-  mkA 3000 false [0; 1] w_procs [mkCpod Q_LSR [2; 3]; mkCpod Q_LSE [2; 3]] [] [].
-
-Lemma lse_overwritten_refuted :
-  exists i, NoDup (map cpu (a_procs i)) /\
-            exists c, In c (snd (adjust i)) /\ lse_owned (a_pods i) c = true.
-Proof.
-  exists w_overwritten. split.
-  - apply nodupb_spec. vm_compute. reflexivity.
-  - exists 2. split; vm_compute; auto.
-Qed.
-Lemma lse_order_dependent : adjust w_overwritten <> adjust w_ordered.
-Proof. vm_compute. discriminate. Qed.
+Definition w_pods_a : list cpod := [mkCpod Q_LSE [2; 3]; mkCpod Q_LSR [2; 3]].
+Definition w_pods_b : list cpod := [mkCpod Q_LSR [2; 3]; mkCpod Q_LSE [2; 3]].
+Definition w_overwritten : ainput := mkA 3000 false [0; 1] w_procs w_pods_a [] [].
+Definition w_ordered : ainput := mkA 3000 false [0; 1] w_procs w_pods_b [] [].
 
 (* "at least two" without the hypothesis on the current cpuset: an empty besteffort cpuset on a
    node of at most ten cpus grows by one cpu only *)
